@@ -39,6 +39,18 @@ FORBIDDEN = re.compile(
     r'type-in-type|impredicative-set|native_compute)\b')
 
 
+def write_coqproject():
+    """_CoqProject lists every .v under coq/{lib,model,proofs,props}; regenerated when the set changes."""
+    files = [str(p.relative_to(COQ)) for d in ('lib', 'model', 'proofs', 'props') for p in sorted((COQ / d).glob('*.v'))]
+    text = ('-R . AV\n-arg -w -arg -notation-overridden,-inexact-float,-deprecated-hint-without-locality,'
+            '-deprecated-instance-without-locality,-abstract-large-number\n' + '\n'.join(files) + '\n')
+    cp = COQ / '_CoqProject'
+    if not cp.exists() or cp.read_text() != text or not (COQ / 'Makefile').exists():
+        cp.write_text(text)
+        subprocess.run(['coq_makefile', '-f', '_CoqProject', '-o', 'Makefile'], cwd=COQ, check=True,
+                       capture_output=True)
+
+
 def log(*a):
     print(*a, file=sys.stderr, flush=True)
 
@@ -308,8 +320,10 @@ class Check:
         self.trusted: list[str] = []
         self.checker_cmds: list[str] = []
         self.notes: dict = {}
-        self.known = [k for k in json.loads((VERIF / 'known_findings.json').read_text())['findings']
-                      if k['property'] == pid]
+        allk = list(json.loads((VERIF / 'known_findings.json').read_text())['findings'])
+        for f in sorted((VERIF / 'known_findings.d').glob('*.json')):      # staging area, merged by hand
+            allk.append(json.loads(f.read_text()))
+        self.known = [k for k in allk if k['property'] == pid]
         self._replay_n = 0
 
     # ---- scaling helper -------------------------------------------------
@@ -329,16 +343,20 @@ class Check:
             self.samples.append(jsonable(case))
 
     # ---- Coq -----------------------------------------------------------
-    def ensure_coq_built(self):
+    def ensure_coq_built(self, targets: list[str] | None = None):
+        """Build (under a lock) the .vo files this property needs: every coq/{lib,model,proofs,props}
+        file whose name starts with `<ID>_`, plus `targets` (paths relative to coq/, .v)."""
         lock = VERIF / 'build' / '.coq.lock'
         lock.parent.mkdir(exist_ok=True)
+        want = [str(p.relative_to(COQ)) for d in ('model', 'proofs', 'props')
+                for p in sorted((COQ / d).glob(f'{self.pid}_*.v'))]
+        want += list(targets or [])
         with open(lock, 'w') as lf:
             fcntl.flock(lf, fcntl.LOCK_EX)
             self._forbidden_grep()
-            if not (COQ / 'Makefile').exists():
-                subprocess.run(['coq_makefile', '-f', '_CoqProject', '-o', 'Makefile'], cwd=COQ, check=True,
-                               capture_output=True)
-            r = subprocess.run(['timeout', '1500', 'make', '-j16'], cwd=COQ, capture_output=True, text=True)
+            write_coqproject()
+            vos = [w[:-2] + '.vo' for w in want]
+            r = subprocess.run(['timeout', '2400', 'make', '-j16', *vos], cwd=COQ, capture_output=True, text=True)
             if r.returncode != 0:
                 self.broken('coq-build', 'make failed in /verif/coq:\n' + (r.stdout + r.stderr)[-3000:])
                 return False
